@@ -93,8 +93,8 @@ def history(item):
         want = S.occurrences(sp, tuple(perm))
         if j % 3 == 1:
             g = obj.occurrences_in(perm)
-            next(g, None)
-            open_gens.append(g)
+            first = next(g, None)
+            open_gens.append((g, first, want, tuple(perm)))
         got = list(obj.occurrences_in(perm))
         if got != want:
             return bad(want, got, f"search #{j} with a reused pattern object, target {tuple(perm)}")
@@ -107,8 +107,24 @@ def history(item):
                 snap = cur
             elif cur != snap:
                 return bad(snap, cur, "memoised search table changed between searches")
-    for g in open_gens:
-        list(g)
+    # searches that were suspended while other searches ran with the same pattern object
+    for g, first, want, tgt in open_gens:
+        rest = list(g)
+        got = ([] if first is None else [first]) + rest
+        if got != want:
+            return bad(want, got, f"a search suspended after its first result and resumed after other searches with the same pattern object, target {tgt}")
+    # two searches of the same pattern object advanced in lock step
+    for a, b in zip(perms, perms[1:]):
+        ga, gb = obj.occurrences_in(a), obj.occurrences_in(b)
+        la, lb = [], []
+        for xa, xb in itertools.zip_longest(ga, gb):
+            if xa is not None:
+                la.append(xa)
+            if xb is not None:
+                lb.append(xb)
+        if la != S.occurrences(sp, tuple(a)) or lb != S.occurrences(sp, tuple(b)):
+            return bad((S.occurrences(sp, tuple(a)), S.occurrences(sp, tuple(b))), (la, lb),
+                       f"two searches of one pattern object interleaved step by step, targets {tuple(a)}, {tuple(b)}")
     return ok(len(perms) > 1 and len(sp) > 1)
 
 
